@@ -84,6 +84,7 @@ def gen_reduce_case(
     unsorted_expected_p: float = 0.0,
     by_dask_any_method: bool = False,
     block_missing_p: float = 0.08,
+    bydask_exact_p: float = 0.5,
 ) -> dict:
     func = tape.choice("gen.func", funcs)
     method = tape.choice("gen.method", methods)
@@ -181,7 +182,7 @@ def gen_reduce_case(
     expected_mode = tape.choice("gen.expected", expected_modes)
     kwargs: dict = {"func": func}
     present = [u for u in np.asarray(uniq).tolist()]
-    if by_dask and expected_mode == "none" and tape.chance("gen.bydask.exp", 0.5):
+    if by_dask and expected_mode == "none" and tape.chance("gen.bydask.exp", bydask_exact_p):
         expected_mode = "exact"
     if expected_mode == "exact":
         kwargs["expected_groups"] = sorted(present) if kind != "str" else sorted(present)
@@ -553,7 +554,7 @@ def call_eager(case):
 
 
 def gen_scan_case(tape: Tape, *, max_n=30, max_groups=5, max_blocks=12, allow_faults=True,
-                  dtypes=("f8", "f8", "f4", "i8", "i4", "b1"), funcs=SCANS, by_dask_p=0.0, dtype_kw_p=0.0) -> dict:
+                  dtypes=("f8", "f8", "f4", "i8", "i4", "b1"), funcs=SCANS, by_dask_p=0.0, dtype_kw_p=0.0, big_int_p=0.0) -> dict:
     func = tape.choice("gen.func", funcs)
     n = tape.randint("gen.n", 2, max_n)
     ngroups = tape.randint("gen.ngroups", 1, min(max_groups, n))
@@ -574,7 +575,16 @@ def gen_scan_case(tape: Tape, *, max_n=30, max_groups=5, max_blocks=12, allow_fa
         iv = gen_values(tape, int(np.prod(shape)), dtype="i8", alphabet=[0, 1, 2, 3, 5]).reshape(shape) * day
         vals = iv.astype("int64").view("M8[ns]")
     else:
-        vals = gen_values(tape, int(np.prod(shape)), dtype=dtype, nan_p=nan_p).reshape(shape)
+        alphabet = None
+        if big_int_p and dt.kind in "iu" and func == "nancumsum" and tape.chance("gen.scan.bigint", big_int_p):
+            # values whose running sums leave the width of the input type (NumPy's cumsum runs in the platform
+            # integer) or, for 64-bit input, are not representable in float64; totals stay inside 64 bits for n <= 48
+            bits = 8 * dt.itemsize
+            if dt.kind == "u":
+                alphabet = [0, 1, 2 ** bits - 1, 2 ** (bits - 1) + 1] if bits < 64 else [1, 2 ** 58 + 1, 2 ** 57 + 3, 0]
+            else:
+                alphabet = [1, 2 ** (bits - 1) - 1, -(2 ** (bits - 1)), -3] if bits < 64 else [1, 2 ** 57 + 1, -(2 ** 57 + 3), 2 ** 55 + 1]
+        vals = gen_values(tape, int(np.prod(shape)), dtype=dtype, nan_p=nan_p, alphabet=alphabet).reshape(shape)
     chunks = [gen_chunks(tape, s, "gen.chunks.lead", max_blocks=3) for s in lead]
     chunks.append(gen_chunks(tape, n, max_blocks=max_blocks))
     by_dask = tape.chance("gen.bydask", by_dask_p)
